@@ -50,7 +50,16 @@
      k<8*g + k> (g = bmp-in units started before it). `JL u` = GET of the router list of unit u: `r:<connected routers>`,
      `r:-` when the unit does not run (404). `G k` then counts the ids address k has been given over all incarnations.
      `C k` while bmp-in does not run is skipped. The expectation of such a case comes from E2eModel alone (eng_pipe is not
-     asked); `M` prints `- -`. *)
+     asked); `M` prints `- -`.
+   - A bgp-tcp-in unit (E2eModel.b_step, extracted): a case with B? ops has a unit `bgp-in` that the RIB units source too.
+     `BO k` = a speaker of address k connects and sends OPEN: `o:<my_asn>,<hold time>` of the configuration the unit holds NOW
+     when that configuration has a peer entry for k (the session gets an ingress id of its own), `o:-` otherwise; `BA` = an
+     UPDATE; `BZ` = the speaker closes: Withdraw of exactly that session's id; `BP k v` / `BS a` = the operator edits the peer
+     entry of k / my_asn; H / L print `x:<sessions the load ends>` = the sessions accepted with another my_asn or another (or
+     no) entry; `BM` = `n:<accepted>,<lost>,<disconnects>`. Entries of BGP sessions are named b<k>c<n>, n = the sessions of
+     address k numbered in the order in which the answers have shown them. A session that a load ends sends its Withdraw while
+     the gate's subscription table is being replaced: heard or not is a race (known finding C13-bgp-reload-end-unheard, class
+     KU): the model token lists both outcomes per such session, the spec says withdrawn. *)
 open Conv
 open BmpModel
 open PipeModel
@@ -76,6 +85,7 @@ type item =
   | Reload of int option
   | Label of int            (* V k *)
   | Ids of int              (* G k *)
+  | BOpenI of int | BUpdI of string list | BCloseI of int | BPeerI of int * int | BAsnI of int | BMetricsI
 
 let split3 (s : string) : string list * string list * string list =
   let rec go acc cur = function
@@ -138,7 +148,8 @@ let run_case (line : string) : string =
   let ops = Stdlib.List.map words (split_on ';' line) in
   let ops = Stdlib.List.filter (fun o -> o <> []) ops in
   let ingress = Stdlib.List.exists (fun o -> Stdlib.List.mem (Stdlib.List.hd o) ["J"; "JL"]) ops in
-  let scripted = ingress || Stdlib.List.exists (fun o -> Stdlib.List.mem (Stdlib.List.hd o) ["F"; "FH"; "W"; "Y"; "P"; "K"; "N"]) ops in
+  let bgp = Stdlib.List.exists (fun o -> Stdlib.List.mem (Stdlib.List.hd o) ["BO"; "BA"; "BZ"; "BP"; "BS"; "BM"]) ops in
+  let scripted = ingress || bgp || Stdlib.List.exists (fun o -> Stdlib.List.mem (Stdlib.List.hd o) ["F"; "FH"; "W"; "Y"; "P"; "K"; "N"]) ops in
   let startup = match ops with ("F" :: s :: _) :: _ -> int_of_string s | _ -> 0 in
   (* the leading F / K ops describe the start-up configuration (F only as the first op) *)
   let max_vribs = 3 in
@@ -183,6 +194,12 @@ let run_case (line : string) : string =
       | "M" -> push self; Metrics (i 1)
       | "Q" -> push self; Query toks
       | "I" | "T" | "S" | "U" | "D" | "R" | "E" | "B" -> push self; Msg (i 1, toks)
+      | "BO" -> BOpenI (min 4 (i 1))
+      | "BA" -> BUpdI toks
+      | "BZ" -> BCloseI (min 4 (i 1))
+      | "BP" -> BPeerI (min 4 (i 1), min 2 (i 2))
+      | "BS" -> BAsnI (min 1 (i 1))
+      | "BM" -> BMetricsI
       | s -> failwith ("bad op " ^ s)) ops in
   let pipe_line = if ingress then "" else join ";" (Stdlib.List.rev !pipe_ops) in
   let (pm, ps, pc) = if pipe_line = "" then ([], [], []) else split3 (Eng_pipe.run_case pipe_line) in
@@ -201,6 +218,7 @@ let run_case (line : string) : string =
   let res = ref [] in
   (* after a request that the code never answers the engine ends the case: the model says `x` from then on *)
   let ended = ref false in
+  let bgp_ended : int list ref = ref [] in
   let emit a b c = res := (if !ended then ("x", b, "KV") else (a, b, c)) :: !res in
   (* the pipeline with its script and RIB units (E2eModel), stepped along in a case that uses them *)
   let ist = ref (i_init (script_of startup) (n startup_vribs)) in
@@ -214,8 +232,50 @@ let run_case (line : string) : string =
         (match !est.es_rib2 with Some r -> hist2 := !hist2 @ [filter_update r.ru_filter u] | None -> ())
     | None -> () in
   let born r = match r with Some r -> Some r.ru_born | None -> None in
+  (* BGP cases: the pipeline with its bgp unit, on the schedule in which every session that a load ends is heard (ba) and on the
+     one in which none is (bn) *)
+  let ba = ref (b_init (script_of startup) (n startup_vribs)) in
+  let bn = ref !ba in
+  let bstep_both (oa : bop) (on : bop) =
+    let before = born !est.es_rib2 in
+    ba := b_step !ba oa; bn := b_step !bn on;
+    est := !ba.bs_e;
+    if born !est.es_rib2 <> before then hist2 := [] in
+  (* the sessions of an address are numbered in the order in which the answers have shown them: separately for what the code's
+     model shows and for what the property's reading shows *)
+  let seen_m : (int * int list) list ref = ref [] and seen_s : (int * int list) list ref = ref [] in
+  let rename seen (tok : string) : string =
+    match String.index_opt tok ':' with
+    | None -> tok
+    | Some ci ->
+        let tag = String.sub tok 0 (ci + 1) and body = String.sub tok (ci + 1) (String.length tok - ci - 1) in
+        if body = "" || body = "-" then tok else begin
+          let es = String.split_on_char ',' body in
+          let parse e =
+            (* b<k>c<c>=... *)
+            if String.length e > 1 && e.[0] = 'b' then
+              (match String.index_opt e 'c', String.index_opt e '=' with
+               | Some a, Some b when a < b ->
+                   (try Some (int_of_string (String.sub e 1 (a - 1)), int_of_string (String.sub e (a + 1) (b - a - 1)), String.sub e b (String.length e - b))
+                    with _ -> None)
+               | _ -> None)
+            else None in
+          let fresh = Stdlib.List.sort compare (Stdlib.List.filter_map (fun e -> match parse e with Some (k, c, _) -> Some (k, c) | None -> None) es) in
+          Stdlib.List.iter (fun (k, c) ->
+              let l = (match Stdlib.List.assoc_opt k !seen with Some l -> l | None -> []) in
+              if not (Stdlib.List.mem c l) then seen := (k, l @ [c]) :: Stdlib.List.remove_assoc k !seen) fresh;
+          let idx k c = let l = Stdlib.List.assoc k !seen in
+            let rec go i = function [] -> -1 | x :: tl -> if x = c then i else go (i + 1) tl in go 0 l in
+          let es' = Stdlib.List.map (fun e -> match parse e with Some (k, c, rest) -> Printf.sprintf "b%dc%d%s" k (idx k c) rest | None -> e) es in
+          tag ^ join "," (Stdlib.List.sort compare es')
+        end in
   let estep (o : eop) =
-    if ingress then begin
+    if bgp then begin
+      (match o with EW wo -> record wo | _ -> ());
+      (match o with
+       | EReload -> bstep_both (BReload []) (BReload bgp_addrs)
+       | _ -> bstep_both (BE o) (BE o))
+    end else if ingress then begin
       (match o with
        | EW wo -> record (wop_rekey (src_key !ist.is_gen) wo)
        | EReload -> Stdlib.List.iter (fun x -> match x with EW wo -> record wo | _ -> ()) (i_removal_ops !ist)
@@ -244,7 +304,30 @@ let run_case (line : string) : string =
     let pfx = Eng_pipe.pid (int_of_string (Stdlib.List.nth toks 1)) (int_of_string (Stdlib.List.nth toks 2)) in
     match unit with
     | None -> let t = tag ^ ":-" in emit t t "."
-    | Some (r, sw, hist) -> let (a, b, c) = answer tag !est.es_w.w_ids hist r.ru_rib sw af pfx in emit a b c in
+    | Some (r, sw, hist) ->
+        let (a, b, c) = answer tag !est.es_w.w_ids hist r.ru_rib sw af pfx in
+        if not bgp then emit a b c else begin
+          (* the same unit on the schedule in which no ended session was heard *)
+          let rn = (if tag = "p" then (match !bn.bs_e.es_rib2 with Some r -> r | None -> r) else !bn.bs_e.es_rib) in
+          let (an, _, _) = answer tag !est.es_w.w_ids hist rn.ru_rib sw af pfx in
+          let save = !seen_m in
+          let a' = rename seen_m a in
+          seen_m := save;
+          let an' = rename seen_m an in
+          let b' = rename seen_s b in
+          if a' = an' then emit a' b' c
+          else begin
+            let body t = String.sub t (String.length tag + 1) (String.length t - String.length tag - 1) in
+            let la = String.split_on_char ',' (body a') and ln = String.split_on_char ',' (body an') in
+            if Stdlib.List.length la <> Stdlib.List.length ln then emit a' b' "?" else begin
+              let combos = Stdlib.List.fold_left2 (fun acc x y ->
+                  if x = y then Stdlib.List.map (fun l -> l @ [x]) acc
+                  else Stdlib.List.concat_map (fun l -> [l @ [x]; l @ [y]]) acc) [[]] la ln in
+              let alts = Stdlib.List.map (fun l -> tag ^ ":" ^ join "," (Stdlib.List.sort compare l)) combos in
+              emit ("<" ^ join "|" alts ^ ">") b' (if c = "." then "KU" else c ^ "KU")
+            end
+          end
+        end in
   Stdlib.List.iter (fun it ->
       match it with
       | Skip -> emit "-" "-" "."
@@ -307,9 +390,18 @@ let run_case (line : string) : string =
       | Reload v ->
           (match v with Some v -> variant := v | None -> ());
           let ran = !ist.is_run in
+          let keys st = Stdlib.List.sort compare (Stdlib.List.map int_of_n (b_live st)) in
+          let before = keys !ba in
+          (if bgp then Stdlib.List.iter (fun k -> record (WBgpClose (n k))) (Stdlib.List.map int_of_n (b_ended !ba.bs_file !ba.bs_sess)));
           estep EReload;
+          bgp_ended := Stdlib.List.filter (fun k -> not (Stdlib.List.mem k (keys !ba))) before;
           (* the connections of a unit that was terminated are gone *)
           if ingress && ran && not !ist.is_run then conn := Stdlib.List.filter (fun (k, _) -> k >= 4) !conn;
+          if bgp then begin
+            (* (estep has run the load) the sessions it ended: they were there before and are not any more *)
+            let t = "x:" ^ join "," (Stdlib.List.map string_of_int !bgp_ended) in
+            emit t t "."
+          end else
           emit "-" "-" "."
       | Label k ->
           (match Stdlib.List.assoc_opt k !conn with
@@ -323,6 +415,35 @@ let run_case (line : string) : string =
             emit t t "."
           end else emit "g:1" "g:1" "."
       | Disc k -> ignore (next ()); estep (EW (WDisconnect (n k))); uc := uc_step !uc (WDisconnect (n k)); conn := Stdlib.List.remove_assoc k !conn; emit "-" "-" "."
+      | BOpenI k ->
+          let live = (b_sess_of !ba (n k) <> None) in
+          if live then emit "-" "-" "."
+          else begin
+            record (WBgpOpen (n k));
+            bstep_both (BOpen (n k)) (BOpen (n k));
+            let t = (match b_sess_of !ba (n k) with
+                     | Some (a, v) -> Printf.sprintf "o:%d,%d" (int_of_n a) (match int_of_n v with 1 -> 90 | 2 -> 120 | _ -> 0)
+                     | None -> "o:-") in
+            emit t t "."
+          end
+      | BUpdI toks ->
+          let k = min 4 (int_of_string (Stdlib.List.nth toks 1)) in
+          let a = int_of_string (Stdlib.List.nth toks 2) in
+          let u = URoutes (n 0, Eng_pipe.plist 0 (Stdlib.List.nth toks 3), n a, n 0, Eng_pipe.plist 0 (Stdlib.List.nth toks 4)) in
+          if b_sess_of !ba (n k) <> None then record (WBgpUpdate (n k, Some u));
+          bstep_both (BUpd (n k, u)) (BUpd (n k, u));
+          emit "-" "-" "."
+      | BCloseI k ->
+          if b_sess_of !ba (n k) <> None then record (WBgpClose (n k));
+          bstep_both (BClose (n k)) (BClose (n k));
+          emit "-" "-" "."
+      | BPeerI (k, v) ->
+          let o = BPeer (n k, if v = 0 then None else Some (n v)) in
+          bstep_both o o; emit "-" "-" "."
+      | BAsnI a -> bstep_both (BAsn (n a)) (BAsn (n a)); emit "-" "-" "."
+      | BMetricsI ->
+          let t = Printf.sprintf "n:%d,%d,%d" (int_of_n !ba.bs_accepted) (int_of_n !ba.bs_lost) (int_of_n !ba.bs_disc) in
+          emit t t "."
       | Metrics _ when ingress -> emit "-" "-" "."; emit "-" "-" "."
       | Metrics _ ->
           let (a, b, c) = next () in
